@@ -3,7 +3,8 @@
    `look` is the store lookup at freeze time (Env::try_borrow_get_var on FreezeEnv.env),
    `B` the bound set (empty when Expr::Freeze calls freeze). *)
 From Coq Require Import ZArith String List Bool.
-From NV Require Import Common.Outcome Lang.FreezeLang Lang.Freeze Lang.FreezeSpec Lang.Freeze_proofs.
+From NV Require Import Common.Outcome Lang.FreezeLang Lang.Freeze Lang.FreezeSpec Lang.Freeze_proofs
+  Lang.FreezeRel Lang.FreezeDbc Lang.FreezePres_proofs Lang.FreezePres_example.
 Import ListNotations.
 Open Scope string_scope.
 
@@ -27,6 +28,69 @@ Theorem C17_freeze_resolves_eagerly : forall (look : name -> option val) (B : li
 Proof. exact freeze_resolves_eagerly. Qed.
 Print Assumptions C17_freeze_resolves_eagerly.
 
+(* freeze preserves meaning.  `cur0` is the frame in which the expression was frozen and is evaluated,
+   `n0` the number of frames of the store at the start (so cur0 < n0); `srel` relates the store of
+   the original run and the store of the frozen run (same frames and variables, related values,
+   same printed output), `agree` says that the variables freeze resolved (`rn B e`) still hold
+   (values related to) what freeze copied, and the evaluator runs under `prot0 n0 (rn B e)`: it
+   stops with the signal STrap as soon as a variable named like a resolved one is about to be
+   declared or assigned in a pre-existing frame - the hypothesis "r <> Sig STrap" is the
+   property's "e's free variables are not reassigned between the freeze and the use".
+   Fragment: `declared_before_captured B e` (Lang/FreezeDbc.v) - no name that freeze resolves inside
+   a lambda is declared by a scope enclosing that lambda; the first iteratee of a for loop
+   declares nothing; values frozen into the source contain no closures.
+   Conclusion: the frozen run ends (same fuel), with a related store, the same printed output and
+   a related result (`rres`: value / thrown value related by `vrel`, or both left the vocabulary). *)
+Theorem C17_freeze_preserves : forall (n0 cur0 : nat) (look : name -> option val), cur0 < n0 ->
+  forall (B : list name) (e e' : expr) (B' : list name) (st st' : state) (fuel : nat) (st1 : state) (r : res val),
+    freeze look B e = Ok (e', B') ->
+    declared_before_captured B e ->
+    srel n0 cur0 look (rn B e) st st' ->
+    agree n0 cur0 look (rn B e) (frames st) ->
+    eval (prot0 n0 (rn B e)) fuel st cur0 e = (st1, r) ->
+    r <> OutOfFuel -> r <> Sig STrap ->
+    exists st1' r',
+      eval (prot0 n0 (rn B e)) fuel st' cur0 e' = (st1', r') /\
+      srel n0 cur0 look (rn B e) st1 st1' /\
+      out st1 = out st1' /\
+      rres n0 cur0 look (rn B e) (vrel n0 cur0 look (rn B e)) (frames st1) r r'.
+Proof. exact freeze_preserves. Qed.
+Print Assumptions C17_freeze_preserves.
+
+(* for every argument tuple: related function values (a lambda and its frozen form, by the theorem
+   above) applied later, in related stores, to related arguments: `post` = either the original call
+   ran out of fuel / hit a protected variable, or both calls end with related stores, the same
+   output and related results *)
+Theorem C17_frozen_call_preserves : forall (n0 cur0 : nat) (look : name -> option val), cur0 < n0 ->
+  forall (resl : list name) (fuel : nat) (st st' : state) (cur : nat) (fv fv' : val) (args args' : list val),
+    srel n0 cur0 look resl st st' -> agree n0 cur0 look resl (frames st) ->
+    vrel n0 cur0 look resl (frames st) fv fv' -> vrels n0 cur0 look resl (frames st) args args' ->
+    post n0 cur0 look resl (vrel n0 cur0 look resl) st cur []
+         (apply (prot0 n0 resl) fuel st fv args) (apply (prot0 n0 resl) fuel st' fv' args').
+Proof. exact frozen_call_preserves. Qed.
+Print Assumptions C17_frozen_call_preserves.
+
+(* the relation has slack only in closure bodies: related data are equal *)
+Theorem C17_related_data_equal : forall (n0 cur0 : nat) (look : name -> option val) (resl : list name)
+    (fs : list frame) (v v' : val),
+  vrel n0 cur0 look resl fs v v' -> simple v = true -> v = v'.
+Proof. exact vrel_data_eq. Qed.
+Print Assumptions C17_related_data_equal.
+
+(* without the hypothesis the statement is false on the faithful model (DESIGN F21):
+   a := 3; (\x -> (g := \-> a; a := x; g()))(8) is 8, its frozen form gives 3, in a store related to
+   itself in which nothing is reassigned *)
+Theorem C17_freeze_preserves_refuted :
+  exists (st : state) (e e' : expr) (B' : list name),
+    freeze (look_in (frames st) 0) [] e = Ok (e', B') /\
+    ~ declared_before_captured [] e /\
+    srel 1 0 (look_in (frames st) 0) (rn [] e) st st /\
+    agree 1 0 (look_in (frames st) 0) (rn [] e) (frames st) /\
+    eval (prot0 1 (rn [] e)) 12 st 0 e = (fst (eval (prot0 1 (rn [] e)) 12 st 0 e), Val (VInt 8)) /\
+    snd (eval (prot0 1 (rn [] e)) 12 st 0 e') = Val (VInt 3).
+Proof. exact freeze_preserves_refuted. Qed.
+Print Assumptions C17_freeze_preserves_refuted.
+
 (* non-vacuity: freeze computes, resolves, folds, refuses *)
 Example C17_nonvacuous :
   freeze glook [] (ELam ["x"] (bin "+" (EVar "x") (EInt 1)))
@@ -39,3 +103,16 @@ Proof.
   - apply BadLam. apply BadAssignOuter. reflexivity.
   - apply (proj1 (C17_freeze_resolves_eagerly glook [] (ELam ["x"] (bin "+" (EVar "x") (EInt 1))) _ _ eq_refl)).
 Qed.
+
+(* non-vacuity of the preservation theorem: its hypotheses hold for
+   (\x -> (t := x + a * 2; k := \p -> p - t; k(20) + len([1, -4])))(5) in a store with a = 3,
+   freeze changes the expression, and both forms evaluate to 11 *)
+Example C17_preserves_nonvacuous :
+  (declared_before_captured [] ex_prog /\
+   srel 1 0 (look_in (frames f21_state) 0) (rn [] ex_prog) f21_state f21_state /\
+   agree 1 0 (look_in (frames f21_state) 0) (rn [] ex_prog) (frames f21_state)) /\
+  (exists e' B',
+     freeze (look_in (frames f21_state) 0) [] ex_prog = Ok (e', B') /\ e' <> ex_prog /\
+     snd (eval (prot0 1 (rn [] ex_prog)) 12 f21_state 0 ex_prog) = Val (VInt 11) /\
+     snd (eval (prot0 1 (rn [] ex_prog)) 12 f21_state 0 e') = Val (VInt 11)).
+Proof. split; [exact ex_prog_hyps | exact ex_prog_freezes]. Qed.
